@@ -596,4 +596,6 @@ WITNESSES = [
      "old": "\tstatus = ECDSA_verify(0, hash, SHA256_DIGEST_LENGTH, sig->signature, sig->sig_len, pub_key);", "new": "\tstatus = ECDSA_verify(0, hash, SKI_SIZE, sig->signature, sig->sig_len, pub_key);"},
     {"id": "C11.w-key-check-looks-up-the-first-ski-only", "rule": "C11.R5", "file": BU,
      "old": "spki_table_search_by_ski(table, (uint8_t *)curr->ski, &tmp_key, &router_keys_len);", "new": "spki_table_search_by_ski(table, (uint8_t *)sig_segs->ski, &tmp_key, &router_keys_len);"},
+    {"id": "C11.w-first-appended-segment-not-counted", "rule": "C11.R5", "file": "rtrlib/bgpsec/bgpsec.c",
+     "old": "\t} else {\n\t\tbgpsec->path = new_seg;\n\t}\n\n\tbgpsec->path_len++;", "new": "\t} else {\n\t\tbgpsec->path = new_seg;\n\t\treturn;\n\t}\n\n\tbgpsec->path_len++;"},
 ]
